@@ -56,6 +56,7 @@ class World:
         self._desc_cache: dict = {}
         self.uploaded: dict[str, bytes | None] = {}
         self.requests = 0
+        self.last_status: dict[str, int] = {}
 
     def _login(self):
         r = self.a.login(self.c, appboot.MEDIA)
@@ -376,23 +377,154 @@ class World:
                 out.append(f"timing reference {s['tref']!r} of stream {s['dir']} names no media file of that stream")
         return out
 
+    @staticmethod
+    def stream_urls(s: dict) -> tuple:
+        return (f"/dash/vod/{s['dir']}/hand_made.mpd", f"/dash/live/{s['dir']}/hand_made.mpd",
+                f"/dash/vod/{s['dir']}/hand_made.mpd?drm=all")
+
+    @staticmethod
+    def mps_urls(m: dict) -> tuple:
+        return (f"/mps/vod/{m['name']}/hand_made.mpd", f"/mps/live/{m['name']}/hand_made.mpd")
+
+    # ------------------------------------------------------------------ oracle: deletions (property text)
+    DELETING = {"ds": "stream-deletion", "dm": "media-file deletion", "dk": "key deletion",
+                "xm": "multi-period-stream deletion", "up": "media-file replacement (upload of the same name)"}
+
+    @staticmethod
+    def owned_rows(before: dict, op: tuple) -> tuple[dict, set, dict, set]:
+        """(rows the operation owns per table {table: {pk}}, owned key links, permitted in-place changes
+        {(table, pk): new row}, pks of the streams whose own content the operation changes) - from the ownership
+        edges of C17: Stream 1-n MediaFile 1-1 Blob, MediaFile n-m Key (links owned by either end, keys by
+        nobody else), MultiPeriodStream 1-n Period n-1 Stream, Period 1-n AdaptationSet, MediaFile 1-n error rows"""
+        own = {t: set() for t in ("streams", "files", "blobs", "keys", "mps", "periods", "adps", "errors")}
+        links: set = set()
+        changed: dict = {}
+        affected: set = set()
+
+        def own_files(fs):
+            for f in fs:
+                own["files"].add(f["pk"])
+                own["blobs"].add(f["blob"])
+            fp = {f["pk"] for f in fs}
+            links.update(x for x in before["links"] if x[0] in fp)
+            own["errors"].update(e["pk"] for e in before["errors"] if e["media"] in fp)
+
+        def own_periods(ps):
+            pp = {p["pk"] for p in ps}
+            own["periods"].update(pp)
+            own["adps"].update(a["pk"] for a in before["adps"] if a["period"] in pp)
+        k = op[0]
+        if k == "ds":
+            own["streams"].add(op[1])
+            affected.add(op[1])
+            own_files([f for f in before["files"] if f["stream"] == op[1]])
+            own_periods([p for p in before["periods"] if p["stream"] == op[1]])
+        elif k in ("dm", "up"):
+            if k == "dm":
+                fs = [f for f in before["files"] if f["pk"] == op[2]]
+            else:
+                fs = [f for f in before["files"] if f["name"] == op[2]]
+            own_files(fs)
+            for f in fs:
+                affected.add(f["stream"])
+                if k == "dm":
+                    for s in before["streams"]:
+                        if s["pk"] == f["stream"] and s["tref"] == f["name"]:
+                            changed[("streams", s["pk"])] = {**s, "tref": None}
+            if k == "up":
+                affected.add(op[1])
+        elif k == "dk":
+            own["keys"].add(op[1])
+            links.update(x for x in before["links"] if x[1] == op[1])
+        elif k == "xm":
+            ms = [m for m in before["mps"] if m["name"] == op[1]]
+            own["mps"].update(m["pk"] for m in ms)
+            own_periods([p for p in before["periods"] if p["parent"] in own["mps"]])
+        return own, links, changed, affected
+
+    @classmethod
+    def deletion_failures(cls, before: dict, op: tuple, res: str, after: dict) -> list[str]:
+        """'each deletion removes exactly the rows it owns and none it shares': after a successful deletion (or
+        replacement) every row the deleted object does not own is still there and unchanged, and (for pure
+        deletions) every row it owns is gone"""
+        if res != "ok" or op[0] not in cls.DELETING:
+            return []
+        what = cls.DELETING[op[0]]
+        own, links, changed, _ = cls.owned_rows(before, op)
+        out = []
+        for t in own:
+            now = {r["pk"]: r for r in after[t]}
+            for r in before[t]:
+                if r["pk"] in own[t]:
+                    if op[0] != "up" and r["pk"] in now:
+                        out.append(f"{what} left a row it owns: {t} {r}")
+                    continue
+                want = changed.get((t, r["pk"]), r)
+                if r["pk"] not in now:
+                    out.append(f"{what} removed a row it does not own: {t} {r}")
+                elif now[r["pk"]] != want:
+                    out.append(f"{what} changed a row it does not own: {t} {r} -> {now[r['pk']]}")
+        now_links = set(after["links"])
+        for x in before["links"]:
+            if x in links:
+                if op[0] != "up" and x in now_links:
+                    out.append(f"{what} left a key link it owns: {x}")
+            elif x not in now_links:
+                out.append(f"{what} removed a key link it does not own: {x}")
+        return out
+
+    @classmethod
+    def preservation_failures(cls, before: dict, status_before: dict, op: tuple, res: str, after: dict,
+                              status_after: dict) -> list[str]:
+        """deleting / replacing an object does not change what the OTHER streams and multi-period streams serve:
+        a stream none of whose rows the operation owns (and a multi-period stream none of whose periods plays an
+        affected stream) answers each manifest with the status it answered before.  (Deleting a key is exempt: a key
+        is shared, its deletion legitimately turns DRM manifests of every stream that used it into a clean 404.)"""
+        if res != "ok" or op[0] not in ("ds", "dm", "xm", "up"):
+            return []
+        own, _, _, affected = cls.owned_rows(before, op)
+        out = []
+        was = {s["pk"]: s for s in before["streams"]}
+        for s in after["streams"]:
+            if s["pk"] in affected or s["pk"] not in was or was[s["pk"]]["dir"] != s["dir"]:
+                continue
+            for url in cls.stream_urls(s):
+                a, b = status_before.get(url), status_after.get(url)
+                if a is not None and b is not None and a != b:
+                    out.append(f"{cls.DELETING[op[0]]} changed the manifests of an unrelated stream: GET {url} {a} -> {b}")
+        wasm = {m["pk"]: m for m in before["mps"]}
+        for m in after["mps"]:
+            if m["pk"] in own["mps"] or m["pk"] not in wasm or wasm[m["pk"]]["name"] != m["name"]:
+                continue
+            if any(p["parent"] == m["pk"] and p["stream"] in affected for p in before["periods"]):
+                continue
+            for url in cls.mps_urls(m):
+                a, b = status_before.get(url), status_after.get(url)
+                if a is not None and b is not None and a != b:
+                    out.append(f"{cls.DELETING[op[0]]} changed the manifests of an unrelated multi-period-stream: GET {url} {a} -> {b}")
+        return out
+
     def service_failures(self, rows: dict) -> list[str]:
-        """every listed stream / multi-period stream answers 200 or a clean 4xx; indexed files come back byte-exactly"""
+        """every listed stream / multi-period stream answers 200 or a clean 4xx; indexed files come back byte-exactly.
+        Side effect: `self.last_status` = {manifest URL: HTTP status} for this state."""
         out = []
         c = self.c
+        status: dict[str, int] = {}
         for s in rows["streams"]:
-            for url in (f"/dash/vod/{s['dir']}/hand_made.mpd", f"/dash/live/{s['dir']}/hand_made.mpd",
-                        f"/dash/vod/{s['dir']}/hand_made.mpd?drm=all"):
+            for url in self.stream_urls(s):
                 st = c.get(url).status_code
                 self.requests += 1
+                status[url] = st
                 if st >= 500 or not (st == 200 or 400 <= st < 500):
                     out.append(f"GET {url} -> {st}")
         for m in rows["mps"]:
-            for url in (f"/mps/vod/{m['name']}/hand_made.mpd", f"/mps/live/{m['name']}/hand_made.mpd"):
+            for url in self.mps_urls(m):
                 st = c.get(url).status_code
                 self.requests += 1
+                status[url] = st
                 if st >= 500 or not (st == 200 or 400 <= st < 500):
                     out.append(f"GET {url} -> {st}")
+        self.last_status = status
         sdir = {s["pk"]: s["dir"] for s in rows["streams"]}
         blobs = {b["pk"]: b for b in rows["blobs"]}
         for f in rows["files"]:
